@@ -16,18 +16,18 @@ AREAS = ["theories/BatchRPC"]
 ROOTS = ("ov_batchrpc",)
 
 THEOREM_OF = {
-    "ids_fresh": "C18_ids_fresh", "own_response": "C18_own_response / C18_dispatch_by_id",
+    "ids_fresh": "C18_ids_computed / C18_ids_fresh", "own_response": "C18_own_response / C18_dispatch_by_id",
     "exactly_once": "C18_exactly_once", "fail_pending": "C18_fail_pending_total",
     "table": "C18_exactly_once (entry leaves the table when completed) / correspondence of `batched`",
     "no_panic": "C18_exactly_once (at most one completion per channel: no send on / close of a closed channel)",
     "bounded_by_timeout": "never blocking beyond its time-out (runtime; explored, not proved)",
     "canceled_never_delivered": "C18_canceled_never_delivered",
     "builder": "C18_build_round / C18_round_nothing_lost / C18_canceled_before_build (buildWithLimit round: fetched entries only, priorities, consecutive ids, cancelled skipped, nothing popped is lost, nothing left behind with an unbounded limit)",
-    "own_error": "C18_collapse_follower_result (an error is the call's own: time-out / cancellation of ITS context)",
+    "own_error": "C18_own_error / C18_collapse_follower_result (an error is the call's own: time-out / cancellation of ITS context)",
     "runloop": "C18_runloop_fifo_once (every appended callback runs exactly once, in order)",
-    "priority": "C18_gate_priority (the priority an entry is queued with is the one the wrapper model predicts)",
+    "priority": "model function gate_priority of Gate.v (Remark gate_priority_spec; the priority an entry is queued with is the one the wrapper model predicts)",
     "gate": "C18_gate_wrapped_call (request / response gate of the resource-control wrapper)",
-    "interceptor_once": "RPC interceptor of the call's context runs once per synchronous call (oracle only)",
+    "interceptor_once": "model function icpt_runs of Gate.v (Remark icpt_runs_spec): predicted number of RPC interceptor runs per call",
     "harness": "harness",
 }
 
